@@ -584,6 +584,8 @@ impl<'a, 'tcx> Bx<'a, 'tcx> {
 }
 
 fn with_np<F: FnOnce() -> String>(f: F) -> String {
-    use rustc_middle::ty::print::{with_no_trimmed_paths, with_no_visible_paths};
-    with_no_visible_paths!(with_no_trimmed_paths!(f()))
+    use rustc_middle::ty::print::{
+        with_no_trimmed_paths, with_no_visible_paths, with_resolve_crate_name,
+    };
+    with_resolve_crate_name!(with_no_visible_paths!(with_no_trimmed_paths!(f())))
 }
